@@ -184,6 +184,31 @@ class DumpZone(Op):
                        "w": ("CCYYWwwD", "CCYY-Www-D")}[rng.choice("cow")][0 if basic else 1]
             timefmt = "Thhmmss" if basic else "Thh:mm:ss"
             yield (m, t, datefmt + timefmt + lit, h, mi)
+        # the edges of what four year digits can print: points within a day of 0000-01-01 and of the end of 9999,
+        # literal zones that carry the local date across the edge or not - the year to print (and to check) is
+        # the year AFTER the conversion (week-year for a week format)
+        for _ in range(n // 4):
+            m = gens.mode(rng)
+            edge = 86400 * oracle.dby(m, rng.choice([0, 10000, 0, 10000, 1, 9999]))
+            tzh, tzm = gens.offset(rng)
+            if abs(tzh) > 23:
+                tzh, tzm = rng.choice([(0, 0), (5, 30), (-11, 0), (13, 0), (-1, 0)])
+            inst_ = edge + rng.choice([-1, 1]) * rng.choice([1, 1800, 3600, 7200, 40000, 86399, 90000])
+            t = T.tp_from_inst(m, inst_, rng.choice("cow"), tzh, tzm, use24=rng.random() < 0.2)
+            if not 0 <= t[1] <= 9999:
+                continue
+            h, mi = rng.choice([(0, 0), (1, 0), (-1, 0), (5, 30), (-5, -30), (12, 0), (-12, 0), (0, -30), (14, 0), (-2, 0)])
+            lit = "Z" if (h, mi) == (0, 0) and rng.random() < 0.7 else "%s%02d:%02d" % ("-" if (h < 0 or mi < 0) else "+", abs(h), abs(mi))
+            datefmt = {"c": "CCYY-MM-DD", "o": "CCYY-DDD", "w": "CCYY-Www-D"}[rng.choice("cow")]
+            yield (m, t, datefmt + "Thh:mm:ss" + lit, h, mi)
+
+    @staticmethod
+    def year_to_print(m, t, fmt, h, mi):
+        local = T.inst(m, t) + 3600 * h + 60 * mi
+        day = local // 86400
+        if t[4] == 24 and (h, mi) == (t[7], t[8]):
+            day -= 1
+        return oracle.week_of_day_num(m, day)[0] if "W" in fmt else oracle.cal_of_day_num(m, day)[0]
 
     def line(self, a):
         return "dumpzone %s %s %s" % (a[0], T.tp_str(a[1]), a[2])
@@ -205,6 +230,11 @@ class DumpZone(Op):
     def oracle(self, a, out):
         m, t, fmt, h, mi = a
         what = "%s dumped as %s in %s" % (T.describe_tp(t), fmt, m)
+        yr = self.year_to_print(m, t, fmt, h, mi)
+        if not 0 <= yr <= 9999:
+            if out == "err":
+                return None          # the year of the re-zoned point does not fit four digits: refusing is right
+            return "%s printed %s although the year to print is %d (a bounds error is due)" % (what, out, yr)
         if " -> " not in out:
             return "%s failed: %s" % (what, out)
         text, rest = out.split(" -> ")
